@@ -441,6 +441,38 @@ def f_two_inputs(p):
     return m
 
 
+def f_nullary_rec(p):
+    """a nullary relation inside a recursive SCC (its rule is guarded by 'already derived')"""
+    r = p.r
+    q, z = p.fresh("nq"), p.fresh("nz")
+    k = r.randrange(2, 12)
+    p.decl(q, [("x", "number")], p.repr_for(1))
+    p.decl(z, [])
+    p.rule("%s(x) :- n1(x), x < 4." % q)
+    p.rule("%s(y) :- %s(x), e1(x,y)." % (q, q))
+    p.rule("%s() :- %s(x), x > %d." % (z, q, k))
+    p.rule("%s(x+1000) :- %s(), %s(x), x < 6." % (q, z, q))
+    return q
+
+
+def f_multi_index(p):
+    """the input relations searched through several different indexes (bound second / third column)"""
+    a = p.fresh("mi")
+    p.decl(a, [("x", "number"), ("z", "number")], p.repr_for(2))
+    p.rule("%s(x,z) :- n1(x), e1(x,z)." % a)
+    p.rule("%s(z,x) :- n1(z), e1(x,z), x != z." % a)
+    b = p.fresh("mj")
+    p.decl(b, [("a", "number"), ("k", "number")])
+    p.rule("%s(a,1) :- n1(a), e2(_,a,_)." % b)
+    p.rule("%s(a,2) :- n1(a), e2(_,_,a)." % b)
+    p.rule("%s(a,3) :- n1(a), e2(a,_,_)." % b)
+    c = p.fresh("mk")
+    p.decl(c, [("s", "symbol"), ("x", "number")])
+    p.rule('%s(s,x) :- n1(x), s1(s,x).' % c)
+    p.rule('%s(s,x) :- s1(s,x), s = "alpha".' % c)
+    return a
+
+
 def f_io_relation(p):
     """a relation that is both .input and .output (no rules of its own) and feeds a derived relation"""
     r = p.r
@@ -480,7 +512,7 @@ def f_typed_input(p):
 
 
 FRAGMENTS = [f_exists, f_exists_idx, f_facts, f_index_brie, f_outer_aggr2, f_filter, f_join, f_join3, f_tc, f_mutual, f_negation, f_aggr, f_outer_aggr, f_strings, f_records, f_adt, f_eqrel, f_multi,
-             f_arith, f_indexed, f_eqrel_input, f_typed_input, f_io_relation, f_itercnt, f_two_inputs]
+             f_arith, f_indexed, f_eqrel_input, f_typed_input, f_io_relation, f_itercnt, f_two_inputs, f_nullary_rec, f_multi_index]
 
 
 def f_input_derived(p):
@@ -504,7 +536,7 @@ def gen_c21(seed, size="quick"):
     derived relations apart); often with eqrel relations, eqrel / brie / typed input relations"""
     rr = random.Random(seed ^ 0x21)
     always = tuple(f for f, pr in ((f_eqrel, 0.3), (f_eqrel_input, 0.4), (f_typed_input, 0.4), (f_io_relation, 0.5)) if rr.random() < pr)
-    return gen_c03(seed, size, exclude=(f_input_derived, f_two_inputs), always=always)
+    return gen_c03(seed, size, exclude=(f_input_derived, f_two_inputs), always=(f_multi_index,) + always)
 
 
 def gen_c20(seed, size="quick"):
@@ -522,7 +554,7 @@ def gen_c03c(seed, size="quick"):
 def gen_c03(seed, size="quick", exclude=(), always=()):
     r = random.Random(seed)
     p = Prog(r, size)
-    nfacts = r.choice([30, 60, 120]) if size == "quick" else r.choice([60, 150, 400, 1000])
+    nfacts = r.choice([30, 60, 120, 120, 400]) if size == "quick" else r.choice([60, 150, 400, 1000, 2500])
     gen_edb(p, nfacts)
     k = r.randrange(3, 8) if size == "quick" else r.randrange(4, 12)
     frs = [f for f in FRAGMENTS if f not in exclude and f not in always]
@@ -543,8 +575,22 @@ def gen_c22(seed, size="quick"):
     for i in range(nrules):
         n = p.fresh("ai")
         c = p.fresh("ac")
-        shape = r.randrange(10)
+        shape = r.randrange(11)
         rep = r.choice(["", "btree", "brie"])
+        if shape == 10:
+            # two counter relations with textually identical rules that are not outputs themselves; their copies are
+            twins = [p.fresh("tw"), p.fresh("tw")]
+            for tname in twins:
+                p.decl(tname, [("id", "number"), ("x", "number")], rep, output=False)
+                p.rule("%s(autoinc(),x) :- n1(x)." % tname)
+            p.decl(c, [("x", "number")])
+            p.rule("%s(x) :- n1(x)." % c)
+            for tname in twins:
+                o = p.fresh("two")
+                p.decl(o, [("id", "number"), ("x", "number")])
+                p.rule("%s(i,x) :- %s(i,x)." % (o, tname))
+                p.meta["autoinc"].append({"rel": o, "idcol": 0, "sibling": c, "always": True})
+            continue
         if shape in (7, 8, 9):
             # 7: two counters in one head; 8: two rules for one counter relation; 9: the counter inside an arithmetic expression
             if shape == 7:
